@@ -39,6 +39,8 @@ type Script struct {
 	TLSRequired bool     `json:"tls_required,omitempty"`
 	Cert        string   `json:"cert,omitempty"` // valid wronghost untrusted expired
 	Mechs       []string `json:"mechs"`
+	// MechsPreTLS, when non-nil, is the mechanism list advertised before STARTTLS (Mechs is then the list after it)
+	MechsPreTLS []string `json:"mechs_pre_tls,omitempty"`
 	NoBind      bool     `json:"no_bind,omitempty"`
 	Session     string   `json:"session,omitempty"` // "", mandatory, optional
 	OfferSM     bool     `json:"offer_sm,omitempty"`
@@ -112,8 +114,12 @@ func (s *Script) features(phase int, v int) string {
 		}
 		fallthrough
 	case 2:
+		mechs := s.Mechs
+		if phase == 1 && s.OfferTLS && s.MechsPreTLS != nil {
+			mechs = s.MechsPreTLS
+		}
 		sb.WriteString("<mechanisms xmlns='" + NSSASL + "'>")
-		for _, m := range s.Mechs {
+		for _, m := range mechs {
 			sb.WriteString("<mechanism>" + xmlEsc(m) + "</mechanism>")
 		}
 		sb.WriteString("</mechanisms>")
@@ -420,6 +426,11 @@ func (c *Conn) Negotiate(s *Script, timeout time.Duration) *Outcome {
 						c.Send(fmt.Sprintf("<enabled xmlns='%s' id='%s'%s location='[::1]:5222' max='300'/>", NSSM, xmlEsc(id), attr))
 					}
 				}) {
+					return out
+				}
+				if !faulted {
+					// enabling stream management is always the last step of the negotiation
+					out.Established = true
 					return out
 				}
 			default:
